@@ -214,7 +214,13 @@ func (e *Engine) timeFormat(st *State, t TimeV, layout string) StrV {
 		case "MST":
 			name := "UTC"
 			if e.opt.Zone == 2 && !t.UTC.IsTrue() {
-				return StrV{Opaque: true, Note: "zone abbreviation under zone view Z2"}
+				if t.Bef == nil || !t.UTC.IsFalse() {
+					return StrV{Opaque: true, Note: "zone abbreviation under zone view Z2"}
+				}
+				// the two intervals of the zone are named VFA (before the transition) and VFB (the native
+				// synthetic zone uses the same names)
+				b = append(b, c.BV('V', 8), c.BV('F', 8), c.Ite(t.Bef, c.BV('A', 8), c.BV('B', 8)))
+				continue
 			}
 			if e.opt.Zone >= 1 {
 				if t.UTC.IsFalse() {
@@ -289,6 +295,7 @@ func (e *Engine) timeParse(st *State, layout string, s StrV, loc int, pos token.
 	hasYear := false
 	i := 0
 	zoneOK := c.True
+	var namedA *Term // zone view Z2: the text names the zone interval before the transition
 	for _, tk := range toks {
 		switch tk.kind {
 		case "lit":
@@ -328,6 +335,15 @@ func (e *Engine) timeParse(st *State, layout string, s StrV, loc int, pos token.
 			ok = c.And(ok, e.inRange(t.S, 0, 59))
 			i += 2
 		case "MST":
+			if loc == 2 && e.opt.Zone == 2 {
+				// VFA / VFB: the named interval's offset decides the instant
+				isV := c.And(c.Eq(s.B[i], c.BV('V', 8)), c.Eq(s.B[i+1], c.BV('F', 8)))
+				isA, isB := c.Eq(s.B[i+2], c.BV('A', 8)), c.Eq(s.B[i+2], c.BV('B', 8))
+				zoneOK = c.And(isV, c.Or(isA, isB))
+				namedA = isA
+				i += 3
+				continue
+			}
 			name := "UTC"
 			if loc == 2 && e.opt.Zone >= 1 {
 				name = zoneName
@@ -382,6 +398,20 @@ func (e *Engine) timeParse(st *State, layout string, s StrV, loc int, pos token.
 		}
 		s2.assume(c.Not(dayOK))
 		out = append(out, errExit(s2))
+	}
+	if dOK && namedA != nil {
+		st.assume(dayOK)
+		// the civil time in the named interval: instant = civil - its offset; the fields shown are those of
+		// that instant in the zone
+		zv := e.zv
+		named := c.Ite(namedA, e.lo24(zv.O1), e.lo24(zv.O2))
+		rel := c.BVSub(e.civilRel(st, t), named)
+		bef := c.BVSlt(rel, e.lo24(zv.Tau))
+		off := c.Ite(bef, e.lo24(zv.O1), e.lo24(zv.O2))
+		out2 := e.relToCivil(st, t, c.BVAdd(rel, off), "zn")
+		out2.Off, out2.Bef, out2.Rel = c.Ite(bef, zv.O1, zv.O2), bef, rel
+		out = append(out, exit{st: st, kind: exitReturn, val: TupleV{out2, IfaceV{}}})
+		return out
 	}
 	if dOK {
 		st.assume(dayOK)
@@ -1090,6 +1120,27 @@ func (e *Engine) hmsWitness(st *State, guard, sod *Term, tag string) (*Term, *Te
 	st.assume(c.Implies(guard, c.And(c.BVUle(hw, c.BV(23, 8)), c.BVUle(mw, c.BV(59, 8)), c.BVUle(sw, c.BV(59, 8)),
 		c.Eq(sod, c.BVAdd(c.BVAdd(c.BVMul(x(hw), e.z24(3600)), c.BVMul(x(mw), e.z24(60))), x(sw))))))
 	return c.ZeroExt(hw, 56), c.ZeroExt(mw, 56), c.ZeroExt(sw, 56)
+}
+
+// civilRel: the civil time as seconds after 00:00 of the anchor day on the civil axis (24-bit).
+func (e *Engine) civilRel(st *State, t TimeV) *Term {
+	c := e.tc
+	zv := e.zv
+	if zv == nil {
+		panic(unsupported("zone view Z2 without an anchor day (verifZoneAt)"))
+	}
+	eq3 := func(y, m, d *Term) *Term { return c.And(c.Eq(t.Y, y), c.Eq(t.M, m), c.Eq(t.D, d)) }
+	py, pm, pd := e.prevDay(st, zv.Y, zv.M, zv.D)
+	ny, nm, nd := e.nextDay(st, zv.Y, zv.M, zv.D)
+	n2y, n2m, n2d := e.nextDay(st, ny, nm, nd)
+	less := c.Or(c.BVSlt(t.Y, zv.Y), c.And(c.Eq(t.Y, zv.Y), c.Or(c.BVSlt(t.M, zv.M), c.And(c.Eq(t.M, zv.M), c.BVSlt(t.D, zv.D)))))
+	const far = 3 * 86400
+	dayRel := c.Ite(eq3(zv.Y, zv.M, zv.D), e.z24(0),
+		c.Ite(eq3(py, pm, pd), e.z24(-86400),
+			c.Ite(eq3(ny, nm, nd), e.z24(86400),
+				c.Ite(eq3(n2y, n2m, n2d), e.z24(2*86400),
+					c.Ite(less, e.z24(-far), e.z24(far))))))
+	return c.BVAdd(dayRel, e.sod24(t))
 }
 
 func (e *Engine) resolveCivilZ2(st *State, t TimeV, pos token.Pos) []civilAlt {
